@@ -14,7 +14,7 @@ from harness import tlc
 from harness.broker_driver import Scenario
 
 BACKENDS = ["inmem", "redis", "rabbit"]
-REDIS_SHARED = {"n+n", "topics", "n+d", "same-due"}
+REDIS_SHARED = {"n+n", "topics", "n+d", "same-due", "same-due-topics"}
 ALLCHK = ["fifo", "early", "latency", "ttl", "holder", "content"]
 CLAUSES = {"C01": ["holder", "route"], "C05": ["early", "latency"], "C12": ["ttl"], "C14": ["holder"], "C15": ["fifo", "starve"], "C07": ["content"]}
 # in-memory consumer: due messages are moved every UPDATE_DELAYED_EVERY of idle polling (+ poll period)
@@ -71,6 +71,10 @@ FAMILIES = {
                "consume_tmo_ms": [5], "weights": {"enq": 6, "consume": 5, "reject": 0, "ack": 3, "nack": 0, "requeue": 0, "finish": 0, "sleep": 2}}),
     "same-due": ([("q1", None, "NORMAL"), ("q1", None, "DELAYED")], ["ta"], {"delays_ms": [500, 500, 500, None], "ttls_ms": [None],
                  "weights": {"enq": 6}}),
+    # delayed messages of several topics that fall due at the very same instant, consumers that serve one topic each
+    "same-due-topics": ([("q1", ["ta"], "NORMAL"), ("q1", ["tab"], "NORMAL")], ["ta", "tab"], {"delays_ms": [400, 400, 400, None], "ttls_ms": [None],
+                        "sleeps_ms": [1, 150, 450], "consume_tmo_ms": [5, 300], "nops": 24, "weights": {"enq": 6, "finish": 0}, "no_defer": True,
+                        "abs_delays": True}),
     "ttl": ([("q1", None, "NORMAL"), ("q1", None, "DEAD")], ["ta"], {"ttls_ms": [1000, 1000, 2500, None], "sleeps_ms": [999, 1000, 1001, 1, 2501],
             "delays_ms": [None, None, 500, 1000, 1500]}),
     "latency": ([("q1", None, "NORMAL")], ["ta"], {"delays_ms": [300, 800, 1500, 86400000, 86400000, None], "ttls_ms": [None],
@@ -113,7 +117,7 @@ def directed_maint():
 
 
 PER_PROPERTY = {
-    "C01": ["n", "n+x", "n+d", "n+n", "topics", "2q", "same-due", "flush"],
+    "C01": ["n", "n+x", "n+d", "n+n", "topics", "2q", "same-due", "same-due-topics", "flush"],
     "C05": ["delay", "latency", "n+d", "same-due"],
     "C12": ["ttl", "n+x", "n"],
     "C14": ["n+n", "topics", "n+x", "2q", "maint", "maint-directed"],
@@ -209,7 +213,7 @@ def run(pid: str, tier: str, seed: int, *, replay: dict | None = None) -> int:
                     sc = dict(seed=seed * 1000 + s, consumers=consumers, topics=topics, backend=be, **extra)
                     if be != "inmem" and len(consumers) > 1 and s % 2:
                         sc["schedule"] = True        # seeded random order of the server round trips
-                    if be == "rabbit" and fam == "topics":
+                    if be == "rabbit" and fam in ("topics", "same-due-topics"):
                         # a foreign-topic message is re-delivered every 0.1 s for as long as the consumer runs: keep it short
                         sc.update(nops=16, sleeps_ms=[1, 50, 250], consume_tmo_ms=[5, 300])
                     if be == "redis" and fam in REDIS_SHARED:
